@@ -2,10 +2,14 @@ package checks
 
 import (
 	"fmt"
+	"os"
+	"path/filepath"
+	"strings"
 	"time"
 
 	jd "github.com/josephburnett/jd/v2"
 
+	"verif/mc/cli"
 	"verif/mc/engine"
 	"verif/mc/impl"
 	"verif/mc/ref"
@@ -62,6 +66,15 @@ func init() {
 			return m
 		},
 		Enum: func(tier string, e *engine.Emitter) {
+			for _, bin := range []string{"jd-v2", "jd-top"} {
+				for _, fl := range []string{"", "@o", "-color", "-color @o", "-set", "-set @o", "-mset -color", "-yaml"} {
+					for _, a := range c11CLIDocs {
+						for _, b := range c11CLIDocs {
+							e.Emit(engine.Case{Kind: "c11cli:" + bin, Leg: "cli/" + bin, A: a, B: b, X: fl})
+						}
+					}
+				}
+			}
 			for _, o := range c11Opts {
 				for _, l := range c11Legs(tier, o) {
 					pairs(e, "c11:"+o, l.Name+"/"+o, l.A, l.B)
@@ -75,7 +88,71 @@ func init() {
 	})
 }
 
+var c11CLIDocs = []string{`{"a":1,"b":{"c":2}}`, `{"a":2,"b":{"c":2,"d":[1]}}`, `{}`, `[1,2]`, `[2,1]`, `"s"`, `{"a":"<&>%s"}`}
+
+// runC11CLI: jd -f merge [flags] [-o F] a b: what lands on stdout or in F is the patch the library renders (plain
+// JSON, whatever the colour flag says), also when it is {} and F held something else before.
+func runC11CLI(c *engine.Case) engine.Result {
+	bin := strings.TrimPrefix(c.Kind, "c11cli:")
+	res := engine.Result{Traces: 1, Transitions: 1, Nontrivial: true, Bucket: "cli"}
+	dir := cli.TempDir()
+	defer os.RemoveAll(dir)
+	args := []string{"-f", "merge"}
+	outFile := ""
+	var opts []string
+	for _, t := range strings.Fields(c.X) {
+		switch t {
+		case "@o":
+			outFile = filepath.Join(dir, "out.json")
+			os.WriteFile(outFile, []byte(strings.Repeat(`{"stale":"patch from an earlier run"}`+"\n", 50)), 0644)
+			args = append(args, "-o", outFile)
+		case "-set":
+			opts = append(opts, "SET")
+			args = append(args, t)
+		case "-mset":
+			opts = append(opts, "MULTISET")
+			args = append(args, t)
+		default:
+			args = append(args, t)
+		}
+	}
+	o := impl.Options(strings.Join(append(opts, "MERGE"), "+"))
+	args = append(args, cli.WriteFile(dir, "a.json", c.A), cli.WriteFile(dir, "b.json", c.B))
+	out := cli.Run(dir, cli.Bin(bin), args, nil)
+	var want string
+	if p := impl.Guard(func() { want, _ = impl.Read(c.A).Diff(impl.Read(c.B), o.Opts...).RenderMerge() }); p != "" {
+		res.Violation = "library: " + p
+		return res
+	}
+	got := out.Stdout
+	if outFile != "" {
+		b, err := os.ReadFile(outFile)
+		if err != nil {
+			res.Violation = fmt.Sprintf("jd %s: the -o file was not written (exit %d, stderr %q)", strings.Join(args[:len(args)-2], " "), out.Exit, firstLine(out.Stderr))
+			return res
+		}
+		got = string(b)
+	}
+	wv, _ := ref.Parse(want)
+	gv, gerr := ref.Parse(got)
+	switch {
+	case out.Timeout:
+		res.Violation = "CLI did not terminate"
+	case out.Exit != 0 && out.Exit != 1:
+		res.Violation = fmt.Sprintf("exit status %d: %s", out.Exit, firstLine(out.Stderr))
+	case gerr != nil || ref.IsVoid(gv) || !ref.Equal(gv, wv, ref.List):
+		if len(got) > 300 {
+			got = got[:300] + "..."
+		}
+		res.Violation = fmt.Sprintf("jd %s wrote %q, the library renders the merge patch as %q", strings.Join(args[:len(args)-2], " "), got, want)
+	}
+	return res
+}
+
 func runC11(c *engine.Case) engine.Result {
+	if strings.HasPrefix(c.Kind, "c11cli:") {
+		return runC11CLI(c)
+	}
 	o := impl.Options(optOf(c.Kind))
 	aV, bV := ref.MustParse(c.A), ref.MustParse(c.B)
 	if ref.Equal(aV, bV, o.Reading) {
